@@ -303,9 +303,17 @@ def rrule(rng, e, dec) -> dict:
             return [v["name"], "is"] + hs + ["any"]
         return [v["name"], "is"] + hs + [rng.choice(v["terms"])["name"]]
 
-    toks = ["if"] + prop(rng.choice(ins))
-    for _ in range(rng.choice([0, 0, 1, 2])):
-        toks += [rng.choice(["and", "or"])] + prop(rng.choice(ins))
+    props = [prop(rng.choice(ins)) for _ in range(rng.choice([1, 1, 2, 3, 3]))]
+    ops = [rng.choice(["and", "or"]) for _ in props[1:]]
+    if len(props) == 3 and rng.random() < 0.6:       # parentheses that may override the precedence of `and` over `or`
+        if rng.random() < 0.5:
+            toks = ["if", "("] + props[0] + [ops[0]] + props[1] + [")", ops[1]] + props[2]
+        else:
+            toks = ["if"] + props[0] + [ops[0], "("] + props[1] + [ops[1]] + props[2] + [")"]
+    else:
+        toks = ["if"] + props[0]
+        for o, q in zip(ops, props[1:]):
+            toks += [o] + q
     toks += ["then"] + prop(rng.choice(outs))[: None]
     if len(outs) > 1 and rng.random() < 0.3:
         toks += ["and"] + prop(rng.choice(outs))
